@@ -49,6 +49,12 @@ fn run(input: RunInput) -> ScenFuture {
         cfg_a.max_concurrent_connections = lim_a;
         let mut cfg_b = cfg.clone();
         cfg_b.max_concurrent_connections = lim_b;
+        // ... nor must the bound on a node's own outstanding dials: it postpones dials, it has no
+        // say over connections coming in while one's own dial is under way
+        if w.flag("small_bound_on_outstanding_dials", 0.3) {
+            cfg_a.max_concurrent_outstanding_connecting_connections = Some(w.param("outstanding_a", 1, 2) as usize);
+            cfg_b.max_concurrent_outstanding_connecting_connections = Some(w.param("outstanding_b", 1, 2) as usize);
+        }
         let a = w.start_node(w.spec(1, cfg_a), Svc::echo(&w)).unwrap();
         let svc_b = Svc::echo(&w);
         let hb = svc_b.handle();
